@@ -549,8 +549,8 @@ def run(tier, seed):
         print(f"[C12] {fn}: {len(args)} work units", flush=True)
         for status, res in run_pool("vx.checks.c12", fn, args):
             if status == "skipped":
-            continue
-        if status != "ok":
+                continue
+            if status != "ok":
                 run.report({"signature": {"kind": "worker-exception"}, "what": f"harness worker failed: {res}", "case": {}})
                 continue
             total += res["n"]
